@@ -146,12 +146,27 @@ impl Ref {
             _ => {}
         }
     }
-    /// For the "delegate ⊆ delegator" oracle: the Principal that made Delegation `n` (1-based), unless a deny statement
-    /// is in force in the Space's policy (a deny names Principals, so it may legitimately separate the two).
-    pub fn delegator_to_reask(&self, space: &str, n: usize) -> Option<String> {
-        let sp = self.spaces.get(space)?;
-        if !sp.policy.is_empty() && self.policies.get(&sp.policy).is_some_and(|(_, sts)| sts.iter().any(|s| s.effect == "deny")) { return None; }
-        self.delegs.get(n.wrapping_sub(1)).map(|d| d.delegator.clone())
+    /// The Principals that made Delegation `n` and every link above it (nearest first), following `parent_delegation`.
+    pub fn ancestors_to_reask(&self, space: &str, n: usize) -> Vec<String> {
+        let Some(sp) = self.spaces.get(space) else { return vec![] };
+        if !sp.policy.is_empty() && self.policies.get(&sp.policy).is_some_and(|(_, sts)| sts.iter().any(|s| s.effect == "deny")) { return vec![]; }
+        let (mut cur, mut out) = (n, vec![]);
+        for _ in 0..10 {
+            let Some(d) = self.delegs.get(cur.wrapping_sub(1)) else { break };
+            if !out.contains(&d.delegator) { out.push(d.delegator.clone()); }
+            match d.parent.rsplit_once(':').and_then(|x| x.1.parse::<usize>().ok()) { Some(p) if !d.parent.is_empty() => cur = p, _ => break }
+        }
+        out
+    }
+    /// Whether the Principal holds exactly one live authority in the Space and owns nothing (then its own answer's
+    /// constraints are that authority's, and whatever hangs below it must stay inside them).
+    pub fn sole_authority(&self, space: &str, p: &str) -> bool {
+        let Some(sp) = self.spaces.get(space) else { return false };
+        if sp.owner == p || sp.owners.iter().any(|o| o == p) { return false; }
+        let g = self.grants.iter().filter(|g| !g.revoked && g.space == space && (g.gp == p || (!g.gg.is_empty() && self.groups.get(&g.gg).is_some_and(|ms| ms.iter().any(|m| m == p))))).count();
+        let d = self.delegs.iter().filter(|d| !d.revoked && d.space == space && d.delegate == p).count();
+        let pol = !sp.policy.is_empty() && self.policies.get(&sp.policy).is_some_and(|(_, sts)| sts.iter().any(|s| s.effect == "allow"));
+        g + d == 1 && !pol
     }
     /// length of the chain of parents below Delegation `n` (1 = direct), capped; 0 when the chain is broken or cyclic
     pub fn chain_depth(&self, n: usize) -> usize {
@@ -431,7 +446,67 @@ fn gen_delegation_case(r: &mut Rng) -> Vec<String> {
     ops
 }
 
+/// Attenuation along a re-delegation chain, one dimension at a time: Grant (delegable, unbounded) to L; L→M bounded on one
+/// dimension; M→F (and sometimes F→G) bounded on the SAME dimension by a list that is, relative to its parent's, equal /
+/// a subset / a superset / partially overlapping / DISJOINT / empty (child) / bounded under an empty parent. Everybody on
+/// the chain is then asked about resources on both sides of every bound. Only contained links may confer anything.
+fn gen_chain_case(r: &mut Rng) -> Vec<String> {
+    let mut ops = vec!["mode authz".to_string()];
+    for p in &PRINCIPALS[..4] { ops.push(format!("principal {p}")); }
+    let (l, m, f, g) = (PRINCIPALS[0], PRINCIPALS[1], PRINCIPALS[2], PRINCIPALS[3]);
+    ops.push(format!("grant {SPACE} {l} - read,search {DEFAULT_SCOPE} {DEFAULT_COND} f=-;mr=-;mi=-;mc=-;x=1 1"));
+    // the dimension and its three-value universe
+    let (dim, uni): (&str, [&str; 3]) = *r.pick(&[("k", ["concept", "evidence", "proposition"]), ("t", ["T1", "T2", "T3"]), ("c", ["public", "internal", "secret"]),
+        ("e", ["C-1", "C-2", "P-1"]), ("f", ["name", "attributes", "schema_ref"]), ("c", ["public", "secret", "private"]), ("f", ["name", "attributes", "id"])]);
+    let (a, b, c) = (uni[0], uni[1], uni[2]);
+    let rel = |r: &mut Rng| -> (String, String, &'static str) {
+        match r.below(9) {
+            0 => (format!("{a},{b}"), format!("{a},{b}"), "equal"),
+            1 => (format!("{a},{b}"), a.to_string(), "subset"),
+            2 => (a.to_string(), format!("{a},{b}"), "superset"),
+            3 => (format!("{a},{b}"), format!("{b},{c}"), "overlap"),
+            4 | 5 => (a.to_string(), b.to_string(), "disjoint"),
+            6 => (format!("{a},{b}"), c.to_string(), "disjoint"),
+            7 => (a.to_string(), "-".to_string(), "empty-child"),
+            _ => ("-".to_string(), a.to_string(), "empty-parent"),
+        }
+    };
+    let bound = |dim: &str, v: &str| -> (String, String) {
+        if dim == "f" { (DEFAULT_SCOPE.to_string(), format!("f={v};mr=-;mi=-;mc=-;x=0")) }
+        else { (format!("k={};t={};c={};e={}", if dim == "k" { v } else { "-" }, if dim == "t" { v } else { "-" }, if dim == "c" { v } else { "-" }, if dim == "e" { v } else { "-" }), "f=-;mr=-;mi=-;mc=-;x=0".to_string()) }
+    };
+    let (pv, cv, tag) = rel(r);
+    let (sc1, cs1) = bound(dim, &pv);
+    let (sc2, cs2) = bound(dim, &cv);
+    ops.push(format!("deleg {SPACE} {l} {m} read,search {sc1} {DEFAULT_COND} {cs1} - 1"));
+    ops.push(format!("deleg {SPACE} {m} {f} read,search {sc2} {DEFAULT_COND} {cs2} kip:delegation:1 1"));
+    let mut ndeleg = 2;
+    if r.chance(1, 2) {
+        // depth 3: relative to the second link
+        let third = match r.below(4) { 0 => cv.clone(), 1 => if tag == "disjoint" { pv.clone() } else { c.to_string() }, 2 => "-".to_string(), _ => a.to_string() };
+        let (sc3, cs3) = bound(dim, &third);
+        ops.push(format!("deleg {SPACE} {f} {g} read {sc3} {DEFAULT_COND} {cs3} kip:delegation:2 0"));
+        ndeleg = 3;
+    }
+    let _ = tag;
+    let ask = |r: &mut Rng, ops: &mut Vec<String>| {
+        for who in [f, f, f, g, g, m, f, g] {
+            let pickv = |r: &mut Rng, d: &str, neutral: &'static str| -> String { if dim == d { r.pick(&uni).to_string() } else { neutral.to_string() } };
+            let k = if dim == "k" { pickv(r, "k", "") } else { r.pick(&["concept", "evidence"]).to_string() };
+            let t = pickv(r, "t", "-");
+            let c_ = if dim == "c" { pickv(r, "c", "") } else { r.pick(&["-", "public", "secret"]).to_string() };
+            let e = pickv(r, "e", "-");
+            let chain = if r.chance(1, 6) { format!("kip:delegation:{}", 1 + r.usize(ndeleg)) } else { "-".to_string() };
+            ops.push(format!("auth {SPACE} {who} standard - declared {chain} {} {k} {t} {c_} {e}", r.pick(&["read", "read", "search"])));
+        }
+    };
+    ask(r, &mut ops);
+    if r.chance(1, 3) { ops.push(format!("revoke_deleg {}", 1 + r.usize(ndeleg))); ask(r, &mut ops); }
+    ops
+}
+
 pub fn gen_case(r: &mut Rng) -> Vec<String> {
+    if r.chance(1, 6) { return gen_chain_case(r); }
     if r.chance(1, 3) { return gen_delegation_case(r); }
     let mut ops = vec!["mode authz".to_string()];
     let nreg = 3 + r.usize(2);
